@@ -360,6 +360,42 @@ def r1_encode_side(ck, cx):
             ck.finding('R1', f.construct, f.detail, f.loc, f.message + ' — its decode() reads the specified layout, so decode(encode(m)) differs from m')
 
 
+def r6_bit_helpers_fresh(ck, cx, rule='R6'):
+    """unpack_bitstring / pack_bitstring are the trusted base of every bit-list codec; trusted means: no memoisation
+    (decorators), and what unpack_bitstring returns is a list built by that very call -- a cached or table-owned list would be
+    shared between all messages decoded from the same bytes, so editing one response changes the next one decoded"""
+    ck.rule(rule, 'the bit-list helpers are plain functions returning a freshly built list (no decorator, no list owned by module state)')
+    from ..common import annotate, ret_expr
+    m = cx.idx.mod('pymodbus.utilities')
+    n = 0
+    for name in ('unpack_bitstring', 'pack_bitstring'):
+        fn = m.funcs.get(name)
+        if fn is None:
+            raise AnalysisError('pymodbus.utilities.%s vanished' % name)
+        ck.saw('functions', fn.qn)
+        n += 1
+        ck.ob(rule, fn.qn, 'no decorator (memoisation shares the mutable result between callers)', not fn.node.decorator_list,
+              detail='decorated %s' % [U(d)[:30] for d in fn.node.decorator_list], loc=cx.floc(fn),
+              message='%s is decorated with %s: every caller that decodes the same bytes gets the same list object' % (fn.qn, [U(d) for d in fn.node.decorator_list]))
+        if name != 'unpack_bitstring':
+            continue
+        globals_ = set(m.consts) | {t.id for nd in m.tree.body if isinstance(nd, ast.Assign) for t in nd.targets if isinstance(t, ast.Name)}
+        for p in cx.enum(fn, None, max_depth=0):
+            if p.exit and p.exit[0] == 'exc':
+                continue
+            annotate(p, heap=False)
+            r = ret_expr(p)
+            if r is None:
+                continue
+            n += 1
+            # the returned object: a local bound to a list display / list() / comprehension / concatenation, never (an element of) a module global
+            shared = any(isinstance(x, ast.Name) and x.id in globals_ for x in ([r] if isinstance(r, ast.Name) else
+                         ([r.value] if isinstance(r, ast.Subscript) else [])))
+            ck.ob(rule, fn.qn, 'the returned list is built by this call', not shared, detail='returns-shared-list %s' % U(r)[:40], loc=cx.floc(fn),
+                  message='unpack_bitstring can return `%s`, an object owned by module state: all messages decoded from that byte share one bit list' % U(r)[:60])
+    ck.floor(rule, n, 3, 'bit helper obligations')
+
+
 def r4_dispatch_reaches_every_code(ck, cx):
     """decode(encode(m)) gives back the class of m only if the sub-function dispatch is reached for every
     sub-function code, 0 included (shared with C01 R4)"""
@@ -383,6 +419,7 @@ def run(ck, tier):
     ck.guard(r1_encode_side, ck, cx)
     ck.guard(r4_dispatch_reaches_every_code, ck, cx)
     ck.guard(r5_no_shared_default_state, ck, cx)
+    ck.guard(r6_bit_helpers_fresh, ck, cx)
     from .c01 import r7_register_keeps_tables
     ck.guard(r7_register_keeps_tables, ck, cx, 'R4')
     ck.assume('equality of values through struct is trusted; bit lists round-trip up to zero padding as a consequence of pack_bitstring/unpack_bitstring (trusted base)')
